@@ -115,6 +115,94 @@ Section May.
 End May.
 
 (* ------------------------------------------------------------------------------------------ *)
+(* Edge-sensitive variant: gen / kill depend on the edge taken out of a node (a for-loop header binds
+   its targets only on the edge into the loop body).  One state per node (`st`: live-in for the
+   backward analysis, and for the forward analysis the state at node entry). *)
+
+(* the pairs (node, node executed next) of the nodes strictly between two positions *)
+Fixpoint steps (mid : list label) (k : label) : list (label * label) :=
+  match mid with [] => [] | m :: r => (m, hd k r) :: steps r k end.
+
+Section MayEdge.
+  Variable A : Type.
+  Variable E : list edge.
+  Variable R : label -> Prop.
+  Variable gen : label -> A -> Prop.                 (* backward: what the node reads *)
+  Variables gene kille : label -> label -> A -> Prop. (* per edge *)
+  Variables sin sout : label -> A -> Prop.
+
+  Record bwd_solution_e : Prop := {
+    be_closed : forall n m, In (n, m) E -> R m -> R n;
+    be_join : forall n m x, In (n, m) E -> R m -> sin m x -> sout n x;
+    be_gen : forall n x, R n -> gen n x -> sin n x;
+    be_pass : forall n m x, In (n, m) E -> R m -> sin m x -> ~ kille n m x -> sin n x }.
+
+  Lemma bwd_e_chain_R : bwd_solution_e -> forall tr a, chain E a tr -> R (lastd a tr) -> R a.
+  Proof.
+    clear gene.
+    intros S tr. induction tr as [|b r IH]; intros a C H; simpl in *; [exact H|].
+    destruct C as [C1 C2]. apply (be_closed S a b C1). apply IH; assumption.
+  Qed.
+
+  Theorem fixpoint_sound_bwd_e : bwd_solution_e -> forall mid a k x,
+    chain E a (mid ++ [k]) -> R k -> gen k x ->
+    (forall m nx, In (m, nx) (steps mid k) -> ~ kille m nx x) ->
+    sout a x /\ sin (hd k mid) x.
+  Proof.
+    clear gene.
+    intros S mid. induction mid as [|m r IH]; intros a k x C Rk G NK; simpl in *.
+    - destruct C as [C _]. assert (I : sin k x) by (apply (be_gen S); assumption).
+      split; [apply (be_join S a k); assumption | exact I].
+    - destruct C as [C1 C2].
+      destruct (IH m k x C2 Rk G (fun m' nx H => NK m' nx (or_intror H))) as [_ I'].
+      assert (Rn : R (hd k r)).
+      { destruct r as [|b r']; simpl in *; [exact Rk|]. destruct C2 as [_ C3].
+        apply (bwd_e_chain_R S _ _ C3). clear - Rk. revert b. induction r'; intros; simpl; [exact Rk|]. apply IHr'. }
+      assert (Ed : In (m, hd k r) E).
+      { destruct r as [|b r']; simpl in *; tauto. }
+      assert (I : sin m x).
+      { apply (be_pass S m (hd k r) x Ed Rn I'). apply NK. left. reflexivity. }
+      assert (Rm : R m) by (apply (be_closed S m (hd k r) Ed Rn)).
+      split; [apply (be_join S a m); assumption | exact I].
+  Qed.
+
+  (* forward: sin is the state at node entry; gene n m: what flows out of n along (n, m) anew *)
+  Record fwd_solution_e : Prop := {
+    fe_closed : forall n m, In (n, m) E -> R n -> R m;
+    fe_gen : forall n m x, In (n, m) E -> R n -> gene n m x -> sin m x;
+    fe_pass : forall n m x, In (n, m) E -> R n -> sin n x -> ~ kille n m x -> sin m x }.
+
+  Lemma fwd_e_flow : fwd_solution_e -> forall mid w r x,
+    R w -> sin w x -> chain E w (mid ++ [r]) ->
+    (forall m nx, In (m, nx) (steps (w :: mid) r) -> ~ kille m nx x) -> sin r x.
+  Proof.
+    intros S mid. induction mid as [|m t IH]; intros w r x Rw I C NK; simpl in *.
+    - destruct C as [C _]. apply (fe_pass S w r x C Rw I). apply NK. left. reflexivity.
+    - destruct C as [C1 C2].
+      assert (I' : sin m x) by (apply (fe_pass S w m x C1 Rw I); apply NK; left; reflexivity).
+      apply (IH m r x (fe_closed S w m C1 Rw) I' C2). intros m' nx H. apply NK. right. exact H.
+  Qed.
+
+  (* w -> mid -> r: what w generates on the edge it takes, and no later step kills, is in sin r *)
+  Theorem fixpoint_sound_fwd_e : fwd_solution_e -> forall mid w r x,
+    R w -> chain E w (mid ++ [r]) -> gene w (hd r mid) x ->
+    (forall m nx, In (m, nx) (steps mid r) -> ~ kille m nx x) -> sin r x.
+  Proof.
+    intros S mid w r x Rw C G NK. destruct mid as [|m t]; simpl in *.
+    - destruct C as [C _]. apply (fe_gen S w r x C Rw G).
+    - destruct C as [C1 C2]. assert (I : sin m x) by (apply (fe_gen S w m x C1 Rw G)).
+      apply (fwd_e_flow S t m r x (fe_closed S w m C1 Rw) I C2). exact NK.
+  Qed.
+
+  Lemma fwd_e_chain_R : fwd_solution_e -> forall tr a, R a -> chain E a tr -> forall n, In n tr -> R n.
+  Proof.
+    intros S tr. induction tr as [|b r IH]; intros a Ra C n H; simpl in *; [contradiction|].
+    destruct C as [C1 C2]. assert (Rb : R b) by (apply (fe_closed S a b); assumption).
+    destruct H as [<-|H]; [exact Rb|]. apply (IH b Rb C2 n H).
+  Qed.
+End MayEdge.
+
+(* ------------------------------------------------------------------------------------------ *)
 (* Composition with C05: the same statements along every execution of the skeleton semantics. *)
 
 Definition normal_end (o : outcome) : Prop := o = ONormal \/ o = ORet \/ o = ORaised.
@@ -204,3 +292,57 @@ Section Exec.
     apply (fixpoint_sound_fwd A (cfg_fn f) R gen kill sin sout S mid w r x Rw Gw C NK).
   Qed.
 End Exec.
+
+Section ExecEdge.
+  Variable A : Type.
+  Variable gen : label -> A -> Prop.
+  Variables gene kille : label -> label -> A -> Prop.
+  Variables sin sout : label -> A -> Prop.
+  Variable R : label -> Prop.
+
+  Theorem liveness_sound_exec_e n f d tr o d' :
+    exec_fn n f d = (tr, o, d') -> o <> OFuel -> top_ok f = true -> guard_block (f_body f) = true ->
+    bwd_solution_e A (cfg_fn f) R gen kille sin sout ->
+    normal_end o -> (forall a, In (a, EXIT) (cfg_fn f) -> R a) ->
+    forall pre s mid k post x,
+      tr = pre ++ s :: mid ++ k :: post ->
+      gen k x -> (forall m nx, In (m, nx) (steps mid k) -> ~ kille m nx x) ->
+      sout s x /\ sin (hd k mid) x.
+  Proof.
+    intros H Ho T G S N Ex pre s mid k post x Etr Gk NK.
+    destruct (exec_trace_path _ _ _ _ _ _ H Ho T G) as [P _].
+    assert (Rk : R k).
+    { apply (exec_nodes_bwd_reachable R _ _ _ _ _ _ H Ho T G N (be_closed _ _ _ _ _ _ _ S) Ex).
+      rewrite Etr. apply in_or_app. right. right. apply in_or_app. right. left. reflexivity. }
+    assert (C : chain (cfg_fn f) s (mid ++ [k])).
+    { rewrite Etr in P.
+      replace (pre ++ s :: mid ++ k :: post) with (pre ++ (s :: mid ++ [k]) ++ post) in P
+        by (simpl; rewrite <- app_assoc; reflexivity).
+      apply pathl_segment in P. exact P. }
+    apply (fixpoint_sound_bwd_e A (cfg_fn f) R gen kille sin sout S mid s k x C Rk Gk NK).
+  Qed.
+
+  Theorem reachdef_sound_exec_e n f d tr o d' :
+    exec_fn n f d = (tr, o, d') -> o <> OFuel -> top_ok f = true -> guard_block (f_body f) = true ->
+    fwd_solution_e A (cfg_fn f) R gene kille sin -> R (f_args f) ->
+    forall pre w mid r post x,
+      tr = pre ++ w :: mid ++ r :: post ->
+      gene w (hd r mid) x -> (forall m nx, In (m, nx) (steps mid r) -> ~ kille m nx x) ->
+      sin r x.
+  Proof.
+    intros H Ho T G S Ra pre w mid r post x Etr Gw NK.
+    destruct (exec_trace_path _ _ _ _ _ _ H Ho T G) as [P [Hd _]].
+    assert (Rw : R w).
+    { destruct tr as [|a0 r0]; [destruct pre; discriminate|]. simpl in Hd. subst a0.
+      destruct pre as [|p0 pre]; simpl in Etr; injection Etr as E1 E2.
+      - subst w. exact Ra.
+      - subst p0. simpl in P. apply (fwd_e_chain_R A (cfg_fn f) R gene kille sin S r0 (f_args f) Ra P).
+        rewrite E2. apply in_or_app. right. left. reflexivity. }
+    assert (C : chain (cfg_fn f) w (mid ++ [r])).
+    { rewrite Etr in P.
+      replace (pre ++ w :: mid ++ r :: post) with (pre ++ (w :: mid ++ [r]) ++ post) in P
+        by (simpl; rewrite <- app_assoc; reflexivity).
+      apply pathl_segment in P. exact P. }
+    apply (fixpoint_sound_fwd_e A (cfg_fn f) R gene kille sin S mid w r x Rw C Gw NK).
+  Qed.
+End ExecEdge.
